@@ -362,6 +362,8 @@ def build(spec, dirpath, write_params=True):
         T.tcols = None
     if t.get('scale'):
         data = (data.astype(np.float64) * t['scale']).astype(t['dtype'])
+    for k, f in enumerate(t.get('per_template_scale') or []):
+        data[k] *= f
     T.nan_template = None
     if t.get('nan_template'):
         k = nt - 1 if (nt - 1) not in spec['spike_templates'] else None
@@ -567,6 +569,18 @@ def many_channels_spec(nc, nt=4, ns=60, nsw=5, seed=2, wm_scale=None, shanks=Fal
     spec['wm_scale'] = wm_scale
     if shanks:
         spec['shanks'] = [(4 * i) // nc for i in range(nc)]
+    return spec
+
+
+def stray_spike_spec(n_major=120000, seed=4):
+    """Hand-made: a cluster of n_major spikes of template 0 merged with a single spike of the
+    (1000 times larger) template 1; the weighted mean still carries 1/(n_major+1) of template 1."""
+    spec = large_spec(n_major + 11, seed=seed, nt=3, nc=4, nsw=3)
+    spec['spike_templates'] = [0] * (n_major // 2) + [1] + [0] * (n_major - n_major // 2) + [2] * 10
+    spec['templates']['per_template_scale'] = [1.0, 1000.0, 1.0]
+    spec['pcf'] = None
+    spec['wm'] = False
+    spec['curation'] = [{'op': 'merge', 'a': 0, 'b': 1}]
     return spec
 
 
